@@ -116,9 +116,51 @@ Proof. exact parse_wei_multiple. Qed.
 Print Assumptions C03_parse_wei_multiple.
 
 (** The structural invariants Commit needs hold in every reachable StateDB. *)
-Theorem C03_invariants_reachable : forall k ops, Inv (core (fst (run ops (new_full k)))).
-Proof. intros k ops. exact (Inv_run ops (new_full k) (Inv_new k)). Qed.
+Theorem C03_invariants_reachable : forall k ops, code_inv k -> Inv (core (fst (run ops (new_full k)))).
+Proof. intros k ops Hc. exact (Inv_run ops (new_full k) (Inv_new k Hc)). Qed.
 Print Assumptions C03_invariants_reachable.
+
+(** The bytecode table (hash -> code, shared by all accounts with that code): Commit only adds to
+    it, Keeper.DeleteAccount does not touch it, and after every transaction the code of every
+    account is retrievable — also when a contract with the same code self-destructed. *)
+Theorem C03_delete_account_keeps_bytecode : forall k a, k_code (kdelete k a) = k_code k.
+Proof. exact kdelete_keeps_code. Qed.
+Print Assumptions C03_delete_account_keeps_bytecode.
+
+Theorem C03_commit_code_table :
+  forall s, Inv s -> clean (kp s) (journal s) (V s) ->
+  (forall h, k_code (kp s) h = true -> k_code (commit s) h = true) /\ code_inv (commit s).
+Proof. exact commit_code_table. Qed.
+Print Assumptions C03_commit_code_table.
+
+Theorem C03_code_retrievable_after_tx :
+  forall k ops, kwf k -> wf_run (k_stor k) ops (ref_begin (world_of k)) ->
+  forall a x, k_acct (fst (run_tx k ops)) a = Some x -> ka_code x = 0 \/ k_code (fst (run_tx k ops)) (ka_code x) = true.
+Proof. exact code_retrievable_after_tx. Qed.
+Print Assumptions C03_code_retrievable_after_tx.
+
+Theorem C03_shared_code_survives_selfdestruct_nonvacuous :
+  let k := fst (run_txs empty_keeper ex_shared) in
+  k_acct k 1 = None /\ option_map ka_code (k_acct k 2) = Some 3 /\ k_code k 3 = true.
+Proof. exact ex_shared_code_survives. Qed.
+Print Assumptions C03_shared_code_survives_selfdestruct_nonvacuous.
+
+(** The boolean protocol check evaluated on traces (finite key universe) implies the Prop-level
+    hypotheses of the theorems, for cases that only write storage keys of their universe; hence a
+    checked trace satisfies the hypothesis of the history theorem. *)
+Theorem C03_boolean_protocol_check_sound :
+  forall as_ ks txs w, Forall (Forall (op_keys_in ks)) txs -> wsupp ks w ->
+  wf_txs_b as_ ks w txs = true -> ref_hist_wf w txs.
+Proof. exact wf_txs_b_sound. Qed.
+Print Assumptions C03_boolean_protocol_check_sound.
+
+Theorem C03_checked_trace_meets_theorem :
+  forall t, Forall (Forall (op_keys_in (t_keys t))) (t_txs t) ->
+  wf_txs_b (t_addrs t) (t_keys t) empty_world (t_txs t) = true ->
+  snd (run_txs empty_keeper (t_txs t)) = snd (ref_txs empty_world (t_txs t)) /\
+  weq (world_of (fst (run_txs empty_keeper (t_txs t)))) (fst (ref_txs empty_world (t_txs t))).
+Proof. exact checked_trace_meets_theorem. Qed.
+Print Assumptions C03_checked_trace_meets_theorem.
 
 (** The boolean checker evaluated on implementation traces is sound for [P]. *)
 Theorem C03_checker_sound : forall t, Pb t = true -> P t.
